@@ -255,6 +255,42 @@ func BuildMapChain(st *Store, n int, lp cidlink.LinkPrototype, label string) *Ch
 	return ch
 }
 
+// BuildPaddedMapChain is BuildMapChain with every block padded (a longer
+// "Val" string) to exactly size bytes of DAG-JSON.
+func BuildPaddedMapChain(st *Store, n int, lp cidlink.LinkPrototype, label string, size int) *Chain {
+	lsys := st.LinkSystem()
+	ch := &Chain{}
+	var next ipld.Link
+	for i := 0; i < n; i++ {
+		mk := func(pad int) ipld.Node {
+			return fluent.MustBuildMap(basicnode.Prototype.Map, 2, func(na fluent.MapAssembler) {
+				if next != nil {
+					na.AssembleEntry("Next").AssignLink(next)
+				}
+				na.AssembleEntry("Val").AssignString(fmt.Sprintf("%s-%d-", label, i) + strings.Repeat("p", pad))
+			})
+		}
+		var buf bytes.Buffer
+		if err := dagjson.Encode(mk(0), &buf); err != nil {
+			panic(err)
+		}
+		if buf.Len() > size {
+			panic(fmt.Sprintf("block needs %d bytes, asked for %d", buf.Len(), size))
+		}
+		l, err := lsys.Store(ipld.LinkContext{}, lp, mk(size-buf.Len()))
+		if err != nil {
+			panic(err)
+		}
+		c := l.(cidlink.Link).Cid
+		if data, _ := st.Get(c); len(data) != size {
+			panic(fmt.Sprintf("padded block has %d bytes, want %d", len(data), size))
+		}
+		next = l
+		ch.Cids = append(ch.Cids, c)
+	}
+	return ch
+}
+
 // LinkOf returns the chain link (PreviousID or Next) of a stored dag-json
 // block, or cid.Undef.
 func LinkOf(data []byte) cid.Cid {
